@@ -33,8 +33,8 @@ ASSUMPTIONS = [
 
 def budget(tier):
     if tier == 'thorough':
-        return {'seeds': 40000, 'wall': 840, 'chunk': 50}
-    return {'seeds': 3000, 'wall': 150, 'chunk': 20}
+        return {'seeds': 90000, 'wall': 900, 'chunk': 100}
+    return {'seeds': 6000, 'wall': 200, 'chunk': 50}
 
 
 def gen_item(seed, tier):
